@@ -114,7 +114,7 @@ def absr(t):
 QMAX = {"qint8": 127, "qfloat8_e4m3fn": 448}
 
 
-def requant_ops(run):
+def requant_ops(run, on_result=None, prefix="C05"):
     """_softmax and where re-quantize their float result: deq(result) is within one step of the output scale of the float result
     (for float8: it is the point of the scaled float8 grid nearest to it)."""
     from qvc.tm_tensor import call_aten, new_input
@@ -166,22 +166,27 @@ def requant_ops(run):
                 try:
                     rs = E.explore(Builtin("requant", prog), lambda E2: ([], {}), name="C05.requant")
                 except Unsupported as u:
-                    run.undecide(f"C05/requant[{tag}]", u, inst)
+                    run.undecide(f"{prefix}/requant[{tag}]", u, inst)
                     continue
                 run.absorb(E)
-                if not run.expect_paths(rs, f"C05/requant[{tag}]", inst):
+                if not run.expect_paths(rs, f"{prefix}/requant[{tag}]", inst):
                     continue
                 rp = lambda m, sd, i=dict(inst): replay_requant(m, sd, i)
                 for pi, r in enumerate(rs):
                     if r.outcome != "return":
-                        run.add(f"C05/requant/case-harness[{tag}]/path{pi}", r.hyps, z3.BoolVal(False), "side", inst, {"outcome": repr(r.value)[:200]})
+                        run.add(f"{prefix}/requant/case-harness[{tag}]/path{pi}", r.hyps, z3.BoolVal(False), "side", inst, {"outcome": repr(r.value)[:200]})
                         continue
                     E.focus(r)
                     if r.value[0] == "raises":
+                        if on_result is not None:
+                            continue
                         run.add(f"C05/requant/does-not-raise[{tag}]/path{pi}:{r.value[1].tname}", r.hyps, z3.BoolVal(False), "property", inst,
                                 {"raises": repr(r.value[1])[:200]}, replay=rp)
                         continue
                     _, res, rd, x, xd, cond, other, outs, h = r.value
+                    if on_result is not None:
+                        on_result(E, r, f"{tag}/path{pi}", inst, res, rd, rp)
+                        continue
                     for o in r.obligations:
                         if o.kind in ("torch-pre", "callee-pre", "assert"):
                             run.add(f"C05/requant/no-runtime-error[{tag}]/path{pi}/{o.name}@{o.loc}", o.hyps, o.goal, "property", inst, replay=rp)
